@@ -57,6 +57,12 @@ func init() {
 			{Name: "id", Num: 1, Type: TString},
 			{Name: "stats", Num: 2, Type: TMessage, TypeName: p + "Int64Msg", Ext: []ExtV{flatten(), flattenPrefix("s_")}},
 		}}
+		money := M{Name: "Money", Fields: []F{{Name: "currency_code", Num: 1, Type: TString}, {Name: "amount", Num: 2, Type: TInt64}}}
+		pricem := M{Name: "PriceMsg", Fields: []F{
+			{Name: "sku", Num: 1, Type: TString},
+			// the flattened field is named like one of the child's fields
+			{Name: "amount", Num: 2, Type: TMessage, TypeName: p + "Money", Ext: []ExtV{flatten()}},
+		}}
 		text := M{Name: "Text", Fields: []F{{Name: "body", Num: 1, Type: TString}}}
 		image := M{Name: "Image", Fields: []F{{Name: "url", Num: 1, Type: TString}, {Name: "width", Num: 2, Type: TInt32},
 			{Name: "alt_text", Num: 3, Type: TString}, {Name: "byte_size", Num: 4, Type: TInt64}}}
@@ -104,7 +110,7 @@ func init() {
 		return Schema{Files: []File{{
 			Name: "gen/codecs/codecs.proto", Package: "acme.codecs", GoPackage: "verifmod/gen/codecs;codecs",
 			Deps:     []string{"proto/sebuf/http/annotations.proto", "google/protobuf/timestamp.proto"},
-			Messages: []M{child, small, int64m, nullm, emptym, flatm, flatchild, flatann, text, image, oneofm, oneofflat, bytesm, timem, strlist, unwrapmap, rootlist, enumm, holder},
+			Messages: []M{child, small, int64m, nullm, emptym, flatm, flatchild, flatann, money, pricem, text, image, oneofm, oneofflat, bytesm, timem, strlist, unwrapmap, rootlist, enumm, holder},
 			Enums: []E{
 				{Name: "Status", Values: []EV{{Name: "STATUS_UNSPECIFIED", Num: 0, Ext: []ExtV{enumValue("unknown")}}, {Name: "STATUS_ACTIVE", Num: 1, Ext: []ExtV{enumValue("active")}}}},
 				{Name: "Priority", Values: []EV{{Name: "PRIORITY_UNSPECIFIED", Num: 0}, {Name: "PRIORITY_HIGH", Num: 1}}},
